@@ -373,8 +373,60 @@ fn run_inner(c: &Case) -> Result<String, String> {
     Ok(format!("pulls={} ae={} cp={} ac={} plain={} vec={} typed={}{}", pulls.join("|"), after_end, if cp.is_empty() { "-".into() } else { cp.join("|") }, after_cancel, plain, vec, typed, timing))
 }
 
+// ---- two connections pulling the same stream id: the `next` that is already queued behind the
+// `next` that delivers the final chunk must get an error, not a second end marker
+fn run_dup(data: Vec<u8>, n: u64) -> Result<String, String> {
+    use repe::value_stream::{ROUTE_NEXT, ROUTE_OPEN};
+    type Gate = Arc<(Mutex<bool>, std::sync::Condvar)>;
+    let gate: Gate = Arc::new((Mutex::new(false), std::sync::Condvar::new()));
+    let (pg, payload) = (gate.clone(), Arc::new(data));
+    // the producer stages the whole payload (at most one chunk: nothing is emitted yet) and waits
+    let router = Router::new().with_writer_stream(BodyFormat::RawBinary, move |resource: &str| {
+        let (gate, payload) = (pg.clone(), payload.clone());
+        (resource == "gated").then_some(move |w: &mut dyn Write| -> io::Result<()> {
+            w.write_all(&payload)?;
+            let (m, cv) = &*gate;
+            let mut open = m.lock().unwrap();
+            let t0 = std::time::Instant::now();
+            while !*open && t0.elapsed() < T_WAIT { open = cv.wait_timeout(open, Duration::from_millis(50)).unwrap().0; }
+            Ok(())
+        })
+    }, StreamOpts { chunk_bytes: n as usize, compression: Compression::None, zstd_level: 3, session_depth: 2 });
+    let addr = net::start_tcp(router);
+    let call = |c: &Client, route: &str, body: &[u8]| c.call_with_formats_and_timeout(route, repe::QueryFormat::JsonPointer as u16, Some(body), BodyFormat::Beve as u16, T_WAIT);
+    let next = move |c: Client, id: u64| -> String {
+        let body = beve::to_vec(&NextReq { stream_id: id }).unwrap();
+        match c.call_with_formats_and_timeout(ROUTE_NEXT, repe::QueryFormat::JsonPointer as u16, Some(&body), BodyFormat::Beve as u16, T_WAIT) {
+            Ok(r) if r.header.ec == 0 => format!("c{}:{}", hex(&r.body), (r.query.first().copied() == Some(1)) as u8),
+            Ok(r) => format!("e{:x}", r.header.ec),
+            Err(repe::RepeError::ServerError { .. }) => "e".into(),
+            Err(e) => format!("x{}", clean(e.to_string())),
+        }
+    };
+    let a = Client::connect(addr).map_err(|e| format!("connect:{e}"))?;
+    let b = Client::connect(addr).map_err(|e| format!("connect:{e}"))?;
+    let ob = beve::to_vec(&OpenReq { resource: "gated".into() }).unwrap();
+    let open: OpenResp = beve::from_slice(&call(&a, ROUTE_OPEN, &ob).map_err(|e| format!("open:{e}"))?.body).map_err(|e| format!("open-decode:{e}"))?;
+    let id = open.stream_id;
+    let _ = (open.version, open.format, open.compression);
+    let nx = next.clone();
+    let ta = std::thread::spawn(move || nx(a, id));
+    std::thread::sleep(Duration::from_millis(150));   // A is parked in the session, waiting for the first chunk
+    let tb = std::thread::spawn(move || next(b, id));
+    std::thread::sleep(Duration::from_millis(150));   // B is queued behind A
+    { let (m, cv) = &*gate; *m.lock().unwrap() = true; cv.notify_all(); }
+    let ra = ta.join().map_err(|_| "join-a".to_string())?;
+    let rb = tb.join().map_err(|_| "join-b".to_string())?;
+    Ok(format!("dupa={ra} dupb={rb}"))
+}
+
 fn run_case(line: &str) -> String {
     let f = fields(line);
+    if f.get("dup").map(|d| d == "1").unwrap_or(false) {
+        let (data, n) = (unhex(&f["data"]), ph(&f["n"]).unwrap_or(0));
+        if n == 0 || data.len() as u64 > n { return "crash=badcase:dup".into(); }
+        return match guard(move || run_dup(data, n)) { Ok(Ok(o)) => o, Ok(Err(e)) => format!("crash={}", clean(e)), Err(()) => "crash=panic".into() };
+    }
     let parsed = (|| -> Option<Case> {
         let g = |k: &str| ph(f.get(k)?);
         Some(Case { kind: g("kind")?, el: g("el")?, pull: g("pull")?, n: g("n")?, d: g("d")?, z: g("z")? != 0, data: unhex(f.get("data")?), w: f.get("w")?.clone(), f: f.get("f")?.clone(), fk: f.get("fk").cloned().unwrap_or_else(|| "err".into()), cj: g("cj")?, slp: g("slp")?, vm: g("vm")?, vs: g("vs")? })
@@ -511,7 +563,13 @@ fn gen_cases(seed: u64, thorough: bool) -> Vec<String> {
     // consecutive cases share their servers and connections: group by configuration, spread
     // the configurations so that every shard (index modulo the shard count) sees few of them
     g.out.sort_by_key(|(k, _)| *k);
-    g.out.into_iter().enumerate().map(|(i, (_, c))| format!("i={i} {c}")).collect()
+    let mut lines: Vec<String> = g.out.into_iter().enumerate().map(|(i, (_, c))| format!("i={i} {c}")).collect();
+    // the stream ends once also for a second connection whose `next` is queued behind the final one
+    for (len, n) in [(10u64, 1024u64), (0, 16), (16, 16), (1, 1)] {
+        let i = lines.len();
+        lines.push(format!("i={i} dup=1 data={} n={}", hex(&rng.bytes(len as usize)), hx(n)));
+    }
+    lines
 }
 
 fn main() {
